@@ -122,7 +122,8 @@ Entries(fs, i, o, ctx, inh) ==
 \* two fields that map to the same key: the documentation does not say what happens
 Decollide(es) == [i \in 1..Len(es) |->
                    IF \E j \in 1..Len(es) : j # i /\ es[i].ks \cap es[j].ks # {}
-                   THEN [es[i] EXCEPT !.v = AnyP, !.req = IF es[i].req = "not" THEN "drop" ELSE "may", !.d.ctx = "key-collision"] ELSE es[i]]
+                   THEN [es[i] EXCEPT !.v = AnyP, !.req = IF es[i].req = "not" THEN "drop" ELSE "may", !.d.ctx = IF \E j \in 1..Len(es) : es[i].ks \cap es[j].ks # {} /\ es[j].d.ctx = "createkey"
+                                          THEN "createkey-collision" ELSE "key-collision"] ELSE es[i]]
 
 StructPat(tv, o) ==
   LET ckE == IF o.ck = "" THEN <<>>
